@@ -13,8 +13,10 @@ Import ListNotations.
    object exactly the expression 6.7.9p17-p21 gives it and nothing (zero) to all others: full braces, brace elision
    at every depth, short lists, designators [i] and .m and paths of them, out of order, overriding, positional
    continuation after a designator path into the enclosing aggregates, first / designated union member, string
-   literals for character arrays (bare, braced, reached by elision, truncated when too long, sizing an array of
-   unknown bound), and the GNU range designator in the form `[a ... b] = initializer-for-one-element`. *)
+   literals for character arrays (bare, braced, reached by elision through structs, unions AND arrays, truncated when
+   too long, overriding an earlier initializer of the array - the rest of the array is zero again -, sizing an array of
+   unknown bound), and the GNU range designator as the LAST designator of a list (`[a ... b] = v`, `[1][2 ... 4] = v`,
+   `.m[0 ... 1] = v`) with v an initializer for one element. *)
 Theorem C05_initcur_model_is_6_7_9 : forall T v, valid T v = true -> model T v = Some (spec T v).
 Proof. exact model_is_spec. Qed.
 Print Assumptions C05_initcur_model_is_6_7_9.
@@ -52,22 +54,35 @@ Theorem C05_initcur_union_switch_refuted :
 Proof. exact union_switch_refuted. Qed.
 Print Assumptions C05_initcur_union_switch_refuted.
 
-(* finding 2 (GNU range designators, outside `valid`): after a range in second or later position of a designator
-   list the list goes on at begin+1 instead of end+1:  int x[2][6] = { [1][2 ... 4] = 7, 8 };  x[1][3] is 8 *)
-Theorem C05_initcur_nested_range_refuted :
-  exists T v, wf_top T = true /\ clean T (spec_events T v) = true /\ model T v <> Some (spec T v).
-Proof. exact nested_range_refuted. Qed.
-Print Assumptions C05_initcur_nested_range_refuted.
+(* former finding 2 (repaired in /repo 43bd8ea, the model follows): after a range in second or later position of a
+   designator list the list now goes on after the END of the range:  int x[2][6] = { [1][2 ... 4] = 7, 8 };  x[1][5] is 8.
+   Designator lists that END in a range are inside `valid` *)
+Example C05_initcur_nested_range_example :
+  valid ex_range_ty ex_range_init = true /\
+  model ex_range_ty ex_range_init = Some (spec ex_range_ty ex_range_init) /\
+  nth_error (snd (spec ex_range_ty ex_range_init)) 11 = Some ([1; 5], Some (VExpr 8)).
+Proof. exact nested_range_example. Qed.
+Print Assumptions C05_initcur_nested_range_example.
 
-(* finding 3: a string literal that reaches its character array by brace elision through an ARRAY (6.7.9p20) stops
-   the compiler with "internal error at parse.c" (string_initializer: unreachable):  struct { char s[2][3]; } x = { "ab" };
-   `valid` (str_ok) excludes the situation; the spec gives the C11 object *)
-Theorem C05_initcur_string_elision_refuted :
-  exists T v, wf_top T = true /\ clean T (spec_events T v) = true /\ model T v = None /\
-              snd (spec T v) = [([0; 0; 0], Some (VChar 97)); ([0; 0; 1], Some (VChar 98)); ([0; 0; 2], Some (VChar 0));
-                                ([0; 1; 0], None); ([0; 1; 1], None); ([0; 1; 2], None)].
-Proof. exact string_elision_refuted. Qed.
-Print Assumptions C05_initcur_string_elision_refuted.
+(* former finding 3 (repaired in /repo 50fe612, the model follows): a string literal that reaches its character array by
+   brace elision through an ARRAY (6.7.9p20):  struct { char s[2][3]; } x = { "ab" };  is now inside `valid` *)
+Example C05_initcur_string_elision_example :
+  valid ex_strarr_ty ex_strarr_init = true /\
+  model ex_strarr_ty ex_strarr_init
+  = Some (ex_strarr_ty, [([0; 0; 0], Some (VChar 97)); ([0; 0; 1], Some (VChar 98)); ([0; 0; 2], Some (VChar 0));
+                         ([0; 1; 0], None); ([0; 1; 1], None); ([0; 1; 2], None)]).
+Proof. exact string_elision_example. Qed.
+Print Assumptions C05_initcur_string_elision_example.
+
+(* a string literal initializes the WHOLE character array, also when it overrides an earlier one (/repo 2e393ab):
+   struct R { char name[8]; } r = { "default", .name = "ab" };  is inside `valid`; the bytes behind "ab" are zero *)
+Example C05_initcur_string_override_example :
+  valid ex_stroverride_ty ex_stroverride_init = true /\
+  model ex_stroverride_ty ex_stroverride_init
+  = Some (ex_stroverride_ty, [([0; 0], Some (VChar 97)); ([0; 1], Some (VChar 98)); ([0; 2], Some (VChar 0));
+                              ([0; 3], None); ([0; 4], None); ([0; 5], None); ([0; 6], None); ([0; 7], None)]).
+Proof. exact string_override_example. Qed.
+Print Assumptions C05_initcur_string_override_example.
 
 (* the hypotheses are satisfiable on a non-trivial input: an array of unknown bound of structs holding an array of
    structs, a union and an int; elision, a 5-step designator path, continuation, a union member, nested braces with
